@@ -6,8 +6,9 @@ Coq, with Ingest.ingest_val: every emitted event projected to (uid, ph, name, ts
 args.rank/jobhash, attr.rank/jobhash) in emission order, plus per file (zero-duration count,
 negative-duration count, final rank_pid), or the events emitted before an exception + its class.
 Oracle: an independent Python statement of the property (expected slices from the file contents,
-exactly-once by uid, dur = E.ts - B.ts, skip counters, per-file order, global order if every file's
-stream is ordered, rank/pid attribution, error class for malformed pairs) on the implementation's output.
+exactly-once by uid, dur = E.ts - B.ts, skip counters, per-file order, global order of the events that
+have a ts if every file's events that have a ts are ordered (any sign of ts, events without ts anywhere),
+rank/pid attribution, error class for malformed pairs) on the implementation's output.
 """
 import copy
 import glob
@@ -32,9 +33,12 @@ MANIFEST = {
             "stable descending sort + pop from the end, refill, disable, silent-drop branch), for any number of files of "
             "any length: if no per-file iterator raises, the merged stream is emitted completely with the model's fuel, "
             "never takes the silent-drop branch, is a permutation of the concatenated per-file streams "
-            "(C15_merge_complete/_perm), preserves every file's order (C15_merge_per_file_order), is ordered by ts "
-            "(missing ts = 0) whenever every per-file stream is (C15_merge_sorted; raw order implies stream order: "
-            "C15_raw_sorted_stream_sorted); per file, over the grammar X | adjacent B/E | M, i, b, e (with or without an "
+            "(C15_merge_complete/_perm), preserves every file's order (C15_merge_per_file_order); time order as the "
+            "property states it, for all rational ts (negative included) and events without ts anywhere in the files: if "
+            "in every file the events that have a ts are non-decreasing, the merged stream's events that have a ts are "
+            "non-decreasing (C15_merge_sorted; the same for raw file -> per-file stream: C15_raw_sorted_stream_sorted). "
+            "The model's sort key is the code's: ts, or -inf (an option, None below every number - not a number) for an "
+            "event without ts, which is therefore emitted as soon as it heads its file. Per file, over the grammar X | adjacent B/E | M, i, b, e (with or without an "
             "args dict) | other, the stream is exactly the expected slices with dur = E.ts - B.ts, metadata passed on, "
             "skipped = counted (C15_pairing), and every annotated event carries the rank latched from the first "
             "annotated pid, in a fresh args dict if it had none (C15_rank_attr); such files never raise "
@@ -61,6 +65,9 @@ ASSUMPTIONS = [
     "FLEX dialect (no deviceProperties), scale 1.0, integer pids",
     "theorems about loss-freedom/order assume no per-file iterator raises (malformed pairs abort the run; the tie "
     "compares the error class and what was emitted before)",
+    "order claim (theorem and oracle): about the events that have a ts, as sub-sequences of the per-file streams and of "
+    "the merged stream; no sign restriction on ts, no restriction on where events without ts stand; where an event "
+    "without ts is emitted is fixed by the model/tie (as soon as it heads its file), not by the oracle",
 ]
 
 TOL = Fraction(1e-9)          # exact value of the double 1e-9
@@ -505,7 +512,8 @@ def inject(r, case):
 
 
 def grid_cases(nfiles, nev, grid):
-    """all sets of 1..nfiles files x 0..nev X-events with ts on the grid (dur 1, pid = file index)"""
+    """all sets of 1..nfiles files x 0..nev events on the grid: a number = X slice with that ts (dur 1, pid = file
+    index), None = metadata event without ts"""
     import itertools
     files = []
     for n in range(nev + 1):
@@ -517,7 +525,9 @@ def grid_cases(nfiles, nev, grid):
             case = []
             for fi, tss in enumerate(combo):
                 case.append({"form": "list", "rank": None, "processed": False,
-                             "tokens": [[mk(fi * 1000 + 2 * j, "X", "k", t, fi, None, dur=1)] for j, t in enumerate(tss)]})
+                             "tokens": [[mk(fi * 1000 + 2 * j, "X", "k", t, fi, None, dur=1) if t is not None else
+                                         mk(fi * 1000 + 2 * j, "M", "process_name", None, fi, None)]
+                                        for j, t in enumerate(tss)]})
             out.append(case)
     return out
 
@@ -597,6 +607,8 @@ def run(ctx):
         cases.append(("corpus:" + name, c))
     n_corpus = len(cases)
     grid = grid_cases(3, 2, [0, 1]) if ctx.quick() else grid_cases(3, 3, [0, 1, 2])
+    # negative time axis and events without ts (None), exhaustively
+    grid += grid_cases(2, 2, [-1, None, 0, 1]) if ctx.quick() else grid_cases(3, 2, [-1, None, 0, 1])
     cases += [("grid", c) for c in grid]
     n_rand = ctx.pick(2000, 30000)
     n_mal = ctx.pick(500, 5000)
@@ -613,7 +625,9 @@ def run(ctx):
                                                             "malformed": n_mal},
             "defects": inj, "errors": {}, "emitted": 0, "skipped_zero": 0, "skipped_negative": 0,
             "sets_with_cross_file_ts_tie": 0, "wellformed_sets": 0, "wellformed_sets_with_argless_M_i_b_e": 0,
-            "all_streams_ordered": 0}
+            "all_streams_ordered": 0, "all_streams_ordered_with_negative_ts": 0,
+            "all_streams_ordered_with_event_without_ts_behind_a_timed_one": 0,
+            "all_streams_ordered_with_negative_ts_and_event_without_ts": 0}
     try:
         for origin, c in cases:
             out, tail, paths, fails = check_case(c, work)
@@ -645,6 +659,17 @@ def run(ctx):
                 dist["wellformed_sets"] += 1
                 dist["wellformed_sets_with_argless_M_i_b_e"] += any(
                     tok_kind(t) in ("M", "i") and "args" not in t[0] for f in c for t in f["tokens"])
+                if not isinstance(tail, enc.Err):
+                    streams = [[x["ts"] for x in expected_file(f)[0]] for f in c]
+                    tl = [[t for t in st if t is not None] for st in streams]
+                    if all(a <= b for st in tl for a, b in zip(st, st[1:])):       # hypothesis of the order claim
+                        neg_ts = any(t < 0 for st in tl for t in st)
+                        no_ts = any(t is None for st in streams for t in st)
+                        dist["all_streams_ordered"] += 1
+                        dist["all_streams_ordered_with_negative_ts"] += neg_ts
+                        dist["all_streams_ordered_with_negative_ts_and_event_without_ts"] += neg_ts and no_ts
+                        dist["all_streams_ordered_with_event_without_ts_behind_a_timed_one"] += any(
+                            t is None and any(u is not None for u in st[:k]) for st in streams for k, t in enumerate(st))
         # distinct failures by kind, shrunk
         oracle_failures, kinds = [], set()
         for c, fl in raw_fail:
@@ -664,8 +689,9 @@ def run(ctx):
     return {
         "evaluations": len(cases), "distinct_nontrivial": nontriv,
         "rule": "corpus + all sets of <= 3 files x <= " + str(ctx.pick(2, 3)) + " X events with ts on the grid "
-                + str(ctx.pick([0, 1], [0, 1, 2])) + f" (exhaustive: {len(grid)}) + random well-formed sets of 1-5 files x 0-8 "
-                "tokens (X, adjacent B/E, M with/without ts, C, i/b/e; M/i/b/e/C with and without an args dict; zero/negative/1e-9-boundary durations; list and "
+                + str(ctx.pick([0, 1], [0, 1, 2])) + " and all sets of <= " + str(ctx.pick(2, 3)) + " files x <= 2 events from "
+                "{X@-1, M without ts, X@0, X@1}" + f" (exhaustive: {len(grid)}) + random well-formed sets of 1-5 files x 0-8 "
+                "tokens (time base -7.5..2, X, adjacent B/E, M with/without ts at any position, C, i/b/e; M/i/b/e/C with and without an args dict; zero/negative/1e-9-boundary durations; list and "
                 "{traceEvents,distributedInfo,otherData} forms; ordered and unordered files) + a separate malformed "
                 "stream (one injected defect). non-trivial = distinct file sets in which at least two files contribute "
                 f"at least one emitted event (Coq-side rule 'two files yield a first event' over all cases: {extras.get('nt')})",
